@@ -969,3 +969,104 @@ def c14delta(rec):
             return False
         v["feature"] = "reduce_of_nonunit_delta" if nonunit(rec["t"]) else "none"
     return [v]
+
+
+# ---------------------------------------------------------------------------
+# C20: the frame condition (nothing the harness holds is ever mutated)
+
+def _fp_pair(hexdigest):
+    v = int(hexdigest, 16)
+    return [v & ((1 << 30) - 1), (v >> 30) & ((1 << 30) - 1)]
+
+
+_C20_PROG = [0]
+
+
+def c20(rec):
+    """C20: run construction, substitution, reduction, alignment, conversion, sampling,
+    optimisation, adjoint and compilation on the program with every leaf array and every
+    operand / intermediate / result funsor registered in a Watch; one heap event (all
+    fingerprints) per step for TLC's Heap.tla."""
+    from funsor.optimizer import apply_optimizer
+    w = fbuild.Watch()
+    cache = {}
+    events = []
+    _C20_PROG[0] += 1
+    prog = "%d-%d" % (__import__("os").getpid(), _C20_PROG[0])
+
+    def snap(step, what):
+        # step 0 logs the fingerprints taken when each object was first seen (at creation for
+        # leaf arrays), so a mutation during the very first build is caught as well; objects
+        # registered later enter with their registration fingerprint
+        cur = w.initial() if step == 0 else w.snapshot()
+        events.append({"kind": "heap", "prog": prog, "step": step, "what": what, "sig": what,
+                       "fps": {str(i): _fp_pair(fp) for i, fp in enumerate(cur)}})
+
+    def builder():
+        b = fbuild.Builder(watch=w)
+        b.leaf_cache = cache
+        return b
+
+    steps = []
+
+    def eager_build():
+        return builder().build(rec["t"])
+
+    def lazy_build():
+        with lazy:
+            return builder().build(rec["t"])
+    state = {}
+
+    def run(what, fn):
+        try:
+            r = fn()
+            if isinstance(r, Funsor):
+                w.add_funsor(r, what)
+            state[what] = r
+        except Exception:  # noqa
+            state[what] = None
+        steps.append(what)
+        snap(len(steps), what)
+
+    try:
+        builder().build(rec["t"])      # registers leaves and intermediates
+    except Exception:  # noqa
+        pass
+    snap(0, "initial")
+    run("eager", eager_build)
+    run("lazy", lazy_build)
+    y = state.get("lazy")
+    x = state.get("eager")
+    if isinstance(y, Funsor):
+        run("reinterpret", lambda: funsor.reinterpret(y))
+        run("normalize", lambda: _with(normalize, lambda: funsor.reinterpret(y)))
+        run("optimize", lambda: apply_optimizer(y))
+        if y.inputs:
+            first = next(iter(y.inputs))
+            dom = y.inputs[first]
+            if isinstance(dom.dtype, int) and not dom.shape:
+                run("subs", lambda: y(**{first: 0}))
+                run("reduce", lambda: y.reduce(funsor.ops.add if y.output.dtype == "real" else funsor.ops.max, first))
+    if isinstance(x, Tensor):
+        names = tuple(reversed(list(x.inputs)))
+        run("align", lambda: x.align(names))
+        run("to_data", lambda: funsor.to_data(x, {n: -1 - i for i, n in enumerate(x.inputs)}))
+        if x.output.dtype == "real" and not x.output.shape and x.inputs:
+            run("sample", lambda: x.sample(frozenset([next(iter(x.inputs))])))
+            run("binary_inplace_probe", lambda: x + x)
+    if isinstance(y, Funsor) and y.output.dtype == "real" and not y.output.shape:
+        def adj():
+            from funsor.adjoint import forward_backward
+            return forward_backward(funsor.ops.add, funsor.ops.mul, y)[0]
+        run("adjoint", adj)
+
+        def comp():
+            from funsor.compiler import compile_funsor
+            return compile_funsor(y)
+        run("compile", comp)
+    return [{"status": "_event", "event": e} for e in events] + [_verdict("C20", "agree")]
+
+
+def _with(interp, fn):
+    with interp:
+        return fn()
